@@ -3,6 +3,7 @@ From Coq Require Import String List.
 From TS Require Import Model.Str Model.Outcome Model.Unicode Model.Syntax Model.Types Model.Lang.Common Model.Lang.Decl Model.Lang.TypeScript Model.Lang.Kotlin Model.Lang.Scala Model.Lang.Swift Model.Lang.Go Model.Lang.Python Spec.C05Spec.
 From TS Require Proofs.C05 Proofs.C05_Back Proofs.C05_Sites Proofs.GoAcronyms Proofs.C05_GoAcr Spec.C02Spec.
 Import ListNotations.
+From TS Require Proofs.C12Multi Proofs.C12MultiTS Proofs.C12MultiSwift Proofs.C12MultiGo Proofs.MultiSameSites.
 From TS Require Props.C05.
 
 Goal forall (t : ty), c05_src_ok t = true -> parse_ty t = Ok (c05_denote t).
@@ -389,3 +390,66 @@ Goal let cfg := {| go_package := lit "p"; go_type_mappings := [(lit "Mapped", li
   [XOpt (XSeq (XName (lit "UserID") [])); XMap (XName (lit "string") []) (XName (lit "URL") []); XName (lit "TID") []; XRaw (lit "ApiURL")].
 Proof. exact Props.C05.C05_site_go_struct_acronyms_nonvacuous. Qed.
 Print Assumptions Props.C05.C05_site_go_struct_acronyms_nonvacuous.
+Goal forall uc cfg st pd ds st',
+  Proofs.C12MultiTS.ts_multi_decls uc cfg st pd = Ok (ds, st') ->
+  exists items, Model.Topsort.topsort (items_of pd) = Ok items /\
+    Forall2 (fun it d =>
+      (forall s, it = ItStruct s ->
+         Forall (Proofs.C05_Sites.c05_field_ok TypeScript (Proofs.C05.c05_ts_cfg cfg) (sgenerics s)) (sfields s) ->
+         exists docs name ms, d = TSInterface docs name (sgenerics s) ms /\
+           map tm_type ms = map (fun f => c05_erase TypeScript (Proofs.C05.c05_ts_cfg cfg) (sgenerics s) (fty f)) (sfields s)) /\
+      (forall a, it = ItAlias a ->
+         dom_C05 (atype a) = true -> known_C05 TypeScript (Proofs.C05.c05_ts_cfg cfg) (agenerics a) (atype a) = None ->
+         exists docs name u n, d = TSAlias docs name (agenerics a) (c05_erase TypeScript (Proofs.C05.c05_ts_cfg cfg) (agenerics a) (atype a)) u n) /\
+      (forall k, it = ItConst k ->
+         dom_C05 (ctype k) = true -> known_C05 TypeScript (Proofs.C05.c05_ts_cfg cfg) [] (ctype k) = None ->
+         exists name v, d = TSConst name (c05_erase TypeScript (Proofs.C05.c05_ts_cfg cfg) [] (ctype k)) v)) items ds.
+Proof. exact Props.C05.C05_multi_site_typescript. Qed.
+Print Assumptions Props.C05.C05_multi_site_typescript.
+Goal forall uc cfg st pd ds st',
+  Proofs.C12MultiSwift.sw_multi_decls uc cfg st pd = Ok (ds, st') ->
+  exists items, Model.Topsort.topsort (items_of pd) = Ok items /\
+    Forall2 (fun it d =>
+      (forall rs, it = ItStruct rs ->
+         Forall (Proofs.C05_Sites.c05_field_ok Swift (Proofs.C05_Back.c05_sw_cfg cfg) (sgenerics rs)) (sfields rs) ->
+         exists sd, d = SWStruct sd /\
+           map swm_type (sws_members sd) = map (fun f => c05_erase Swift (Proofs.C05_Back.c05_sw_cfg cfg) (sgenerics rs) (fty f)) (sfields rs) /\
+           map swm_init_type (sws_members sd) = map (fun f => c05_erase Swift (Proofs.C05_Back.c05_sw_cfg cfg) (sgenerics rs) (fty f)) (sfields rs)) /\
+      (forall a, it = ItAlias a ->
+         dom_C05 (atype a) = true -> known_C05 Swift (Proofs.C05_Back.c05_sw_cfg cfg) (agenerics a) (atype a) = None ->
+         exists docs name esc, d = SWAlias docs name esc (agenerics a) (c05_erase Swift (Proofs.C05_Back.c05_sw_cfg cfg) (agenerics a) (atype a)))) items ds.
+Proof. exact Props.C05.C05_multi_site_swift. Qed.
+Print Assumptions Props.C05.C05_multi_site_swift.
+Goal forall uc cfg st pd ds st',
+  Proofs.C12Multi.py_multi_decls uc cfg st pd = Ok (ds, st') ->
+  exists items dss, Model.Topsort.topsort (items_of pd) = Ok items /\ ds = List.concat dss /\
+    Forall2 (fun it dl =>
+      (forall s, it = ItStruct s ->
+         Forall (Proofs.C05_Sites.c05_field_ok Python (Proofs.C05_Back.c05_py_cfg cfg) (sgenerics s)) (sfields s) ->
+         exists docs name pbn ms, dl = [PYClass docs name (sgenerics s) pbn ms] /\
+           map pym_type ms = map (Proofs.C05_Sites.py_field_type cfg (sgenerics s)) (sfields s)) /\
+      (forall a, it = ItAlias a ->
+         dom_C05 (atype a) = true -> known_C05 Python (Proofs.C05_Back.c05_py_cfg cfg) (agenerics a) (atype a) = None ->
+         exists docs name, dl = [PYAlias docs name (agenerics a) (c05_erase Python (Proofs.C05_Back.c05_py_cfg cfg) (agenerics a) (atype a))]) /\
+      (forall k, it = ItConst k ->
+         dom_C05 (ctype k) = true -> known_C05 Python (Proofs.C05_Back.c05_py_cfg cfg) [] (ctype k) = None ->
+         exists name v, dl = [PYConst name (c05_erase Python (Proofs.C05_Back.c05_py_cfg cfg) [] (ctype k)) v])) items dss.
+Proof. exact Props.C05.C05_multi_site_python. Qed.
+Print Assumptions Props.C05.C05_multi_site_python.
+Goal forall uc cfg st pd ds st',
+  Proofs.C12MultiGo.go_multi_decls uc cfg st pd = Ok (ds, st') ->
+  exists items dss, Model.Topsort.topsort (items_of pd) = Ok items /\ ds = List.concat dss /\
+    Forall2 (fun it dl =>
+      (forall rs, it = ItStruct rs -> go_uppercase_acronyms cfg = [] ->
+         Forall (Proofs.C05_Sites.c05_field_ok Go (Proofs.C05_Back.c05_go_cfg cfg) (sgenerics rs)) (sfields rs) ->
+         exists docs name ms, dl = [GOStruct docs name (sgenerics rs) ms] /\
+           map (fun mm => go_obs_ty (gm_type mm)) ms = map (fun f => c05_erase Go (Proofs.C05_Back.c05_go_cfg cfg) (sgenerics rs) (fty f)) (sfields rs)) /\
+      (forall a, it = ItAlias a ->
+         dom_C05 (atype a) = true -> known_C05 Go (Proofs.C05_Back.c05_go_cfg cfg) [] (atype a) = None ->
+         exists docs name ty, dl = [GOAlias docs name ty] /\
+           go_obs_ty ty = c05_erase Go (Proofs.C05_Back.c05_go_cfg cfg) (agenerics a) (atype a)) /\
+      (forall k, it = ItConst k ->
+         dom_C05 (ctype k) = true -> known_C05 Go (Proofs.C05_Back.c05_go_cfg cfg) [] (ctype k) = None ->
+         exists name ty v, dl = [GOConst name ty v] /\ go_obs_ty ty = c05_erase Go (Proofs.C05_Back.c05_go_cfg cfg) [] (ctype k))) items dss.
+Proof. exact Props.C05.C05_multi_site_go. Qed.
+Print Assumptions Props.C05.C05_multi_site_go.
